@@ -51,7 +51,10 @@ class Oracle:
 
     def finish(self, w: ctl.World) -> None:
         proc = w.proc
-        if any(r['op'] == 'kill' and r['raised'] is None and not r.get('withdrawn') for r in w.calls):
+        kills = [r for r in w.calls if r['op'] == 'kill' and r['raised'] is None]
+        if any(not r.get('withdrawn') for r in kills) or (kills and proc.state == ProcessState.KILLED):
+            # (whether cancelling the action that kill() returned withdraws the kill is not laid down: a run that ends KILLED
+            #  after such a kill is as good as one that goes on)
             # (part iii) a kill that stands decides the run (C04's business); one that was withdrawn again must leave the
             # wake-up untouched, which is what is judged below
             w.result.outcome = (str(proc.state), 'killed', tuple((r['op'], str(r['ret'])) for r in w.calls))
